@@ -110,6 +110,9 @@ pub struct Case {
     /// 1e999, a lone surrogate escape, 200 levels of nesting)
     #[serde(default)]
     pub extra_raw: Option<String>,
+    /// the members of the JSON envelope in another order (seed of the permutation)
+    #[serde(default)]
+    pub member_order: Option<u64>,
 }
 
 fn kb_absent() -> KbEnc {
@@ -744,7 +747,7 @@ impl<'a> Exec<'a> {
         // an unfaulted message travelling in the format it was produced in is delivered verbatim
         // (byte for byte what the issuer / holder returned), not re-serialised by the gateway
         let verbatim = match (self.raw_of(&case.base), self.base_msg(&case.base)) {
-            (Some((raw, native)), Some((b, _, _))) if native == fmt && &b == m && case.extra.is_empty() && case.kb_enc == KbEnc::Absent && !case.escapes && case.extra_raw.is_none() => Some(raw),
+            (Some((raw, native)), Some((b, _, _))) if native == fmt && &b == m && case.extra.is_empty() && case.kb_enc == KbEnc::Absent && !case.escapes && case.extra_raw.is_none() && case.member_order.is_none() => Some(raw),
             _ => None,
         };
         if verbatim.is_some() {
@@ -765,6 +768,18 @@ impl<'a> Exec<'a> {
                 m.to_json(case.kb_enc, &case.extra)
             }
         };
+        if let (Some(seed), Fmt::Json) = (case.member_order, fmt) {
+            if let Ok(Value::Object(o)) = serde_json::from_str::<Value>(&s) {
+                let mut keys: Vec<String> = o.keys().cloned().collect();
+                Rng::new(seed).shuffle(&mut keys);
+                let m: Map<String, Value> = keys.into_iter().filter_map(|k| o.get(&k).map(|v| (k.clone(), v.clone()))).collect();
+                let t = Value::Object(m).to_string();
+                if t != s {
+                    self.rep.count("fault.json_member_order");
+                }
+                s = t;
+            }
+        }
         if let (Some(raw), Fmt::Json) = (&case.extra_raw, fmt) {
             // only text that is JSON by the grammar (RFC 8259) is a legal extra member; anything
             // else (e.g. what the minimiser makes of it) would not be a JSON envelope at all
